@@ -276,7 +276,7 @@ def run(ctx):
             ctx.sample(dict((a, cases[0][a]) for a in ('parts', 'req', 'cols', 'sub', 'rows', 'colsOut')), limit=4)
         finally:
             rd.close()
-    recs = _random_records(ctx, 400 if ctx.quick else 4000)
+    recs = _random_records(ctx, 1500 if ctx.quick else 8000)
     if ctx.abort:
         return
     for chunk in [recs[a:a + 1000] for a in range(0, len(recs), 1000)]:
